@@ -839,6 +839,12 @@ func livePhase(run *vlib.Run, seed int64, thorough bool) {
 		for _, a := range []string{addr, map[string]string{"tcp": pushTCP, "udp": pushUDP}[it.Proto]} {
 			c, err := net.DialTimeout(it.Proto, a, 3*time.Second)
 			if err == nil {
+				if it.Proto == "udp" && len(it.data) < 8 {
+					// a short datagram right behind a regular one: the server's read buffer still holds
+					// the regular datagram's bytes
+					_, _ = c.Write(valid)
+					time.Sleep(2 * time.Millisecond)
+				}
 				_ = c.SetWriteDeadline(time.Now().Add(20 * time.Second))
 				_, _ = c.Write(it.data)
 				if it.Proto == "tcp" {
